@@ -104,7 +104,9 @@ def main():
         rec.inconclusive_because('shard %s raised in harness: %s'
                                  % (job['shard'].get('name'), traceback.format_exc()[-1500:]))
     rec.counters['shard_wall_ms'] += int(1000 * (time.time() - t0))
-    from rv.tables import jsonable
+    from rv.tables import jsonable, PRESENTATION
+    for k, n in PRESENTATION.items():
+        rec.counters['presentation_' + k] += n
     with open(fout, 'w') as f:
         json.dump(jsonable(rec.result()), f, allow_nan=True)
 
